@@ -312,6 +312,9 @@ var c03NextKinds = []c03NextKind{
 	}},
 }
 
+// c03NextAfterClose: the order in which follow-up kinds are used after a connection close.
+var c03NextAfterClose = []int{1, 4, 2, 5, 3, 6, 0}
+
 func TestVerif_C03_h3cut(t *testing.T) {
 	s := verifh.New(t, "C03", "h3cut",
 		"real client forced to HTTP/3 against a frame-script peer on raw quic-go streams: response HEADERS with/without content-length, body in 1-4 DATA frames, ended after a strict prefix of the body "+
@@ -320,6 +323,8 @@ func TestVerif_C03_h3cut(t *testing.T) {
 			"classes (known findings): h3-fin-truncated = clean FIN before the declared length or inside a DATA frame reported as success; "+
 			"h3-closed-conn-reuse = the request after a connection close fails on the dead cached connection. non-trivial = fault injected")
 	r := s.Rand()
+	rp := c03PosRand(4) // the round-6 dimensions draw from their own stream
+	closeSeq := 0
 	peer := newC03H3Peer(t)
 	defer peer.ln.Close()
 	url := "https://" + peer.ln.Addr().String() + "/x"
@@ -531,7 +536,7 @@ func TestVerif_C03_h3cut(t *testing.T) {
 		// scripted response answers the LAST exchange of the call; the peer serves a complete
 		// body-less prelude first. Not with a connection close: a reused connection that dies before
 		// the response head makes RoundTripOpt replay the GET on a fresh connection.
-		cc.pos = c03PickPos(r, cc.mode, sc.ending != "conn-close")
+		cc.pos = c03PickPos(rp, cc.mode, sc.ending != "conn-close")
 		if cc.pos != "" {
 			c03ApplyPos(c, cc.pos)
 			peer.mu.Lock()
@@ -552,8 +557,16 @@ func TestVerif_C03_h3cut(t *testing.T) {
 		// body that are safe or carry an idempotency key; the model (h3Next) says the cache never
 		// hands out a dead connection, so every kind is served. After a SUCCESSFUL first exchange the
 		// follow-up stays a GET (a connection close still on its way then races with it, as in any pool).
-		nextKind := verifh.Pick(r, c03NextKinds)
-		if nextKind.name == "post-reader" && (cc.pos == "retried" || (!stream && cc.mode == "retry")) {
+		nextKind := verifh.Pick(rp, c03NextKinds)
+		retries := cc.pos == "retried" || (!stream && cc.mode == "retry")
+		if sc.ending == "conn-close" {
+			// the cases the dimension is about get every kind in turn (non-replayable ones first)
+			nextKind = c03NextKinds[c03NextAfterClose[closeSeq%len(c03NextAfterClose)]]
+			if nextKind.name != "post-reader" || !retries {
+				closeSeq++
+			}
+		}
+		if nextKind.name == "post-reader" && retries {
 			nextKind = c03NextKinds[1] // (req refuses a reader body on a client with retries configured)
 		}
 		type out struct {
